@@ -88,5 +88,46 @@ PairwiseCovered ==
      \A i \in 1..NF, j \in 1..NF : i < j =>
         \A a \in FactorVals(i), b \in FactorVals(j) :
            \E k \in 1..Len(chosen) : chosen[k][Names[i]] = a /\ chosen[k][Names[j]] = b
-Dump == (started /\ uncovered = {} /\ cands = {}) => PrintT(<<"OUT", ToJson(chosen)>>)
+
+---------------------------------------------------------------------------
+\* Designs for "every source x every single report option" (quick tier over the whole corpus):
+\*  Default   the plain configuration (what `asl <asflags> -q -i include src` means in terms of the factors)
+\*  Singles   Default with exactly one factor changed to one of its other values: every option alone
+\*  AllOn     every report option switched on at once
+\*  Rotation(r)  a small subset of the pairwise sample that starts with its r-th vector and covers every value of
+\*            every factor at least once (greedy).  Source number n gets Rotation(n mod Len(chosen)): every (source,
+\*            option value) pair is exercised, and over the corpus all vectors of the pairwise sample are used.
+Default == [L |-> "none", u |-> FALSE, C |-> FALSE, s |-> FALSE, I |-> FALSE, g |-> "none", t |-> "none", x |-> 0,
+            n |-> FALSE, q |-> TRUE, A |-> FALSE, r |-> FALSE, E |-> "stderr", gnu |-> FALSE, radix |-> "none",
+            P |-> FALSE, M |-> FALSE, h |-> FALSE, split |-> "none", src |-> "argv", cwd |-> "parent",
+            out |-> "default", lang |-> "C", langvar |-> "LANG"]
+AllOn   == [L |-> "L", u |-> TRUE, C |-> TRUE, s |-> TRUE, I |-> TRUE, g |-> "MAP", t |-> "511", x |-> 2,
+            n |-> TRUE, q |-> TRUE, A |-> TRUE, r |-> TRUE, E |-> "file", gnu |-> TRUE, radix |-> "8",
+            P |-> TRUE, M |-> TRUE, h |-> TRUE, split |-> "dot", src |-> "ascmdkey", cwd |-> "srcdir",
+            out |-> "renamed", lang |-> "de_DE", langvar |-> "LC_ALL"]
+Singles == (UNION {{[Default EXCEPT ![Names[i]] = a] : a \in FactorVals(i)} : i \in 1..NF}) \ {Default}
+
+AllVals == UNION {{<<i, Tag(a)>> : a \in FactorVals(i)} : i \in 1..NF}
+ValsOf(vec) == {<<i, Tag(vec[Names[i]])>> : i \in 1..NF}
+RECURSIVE Greedy(_, _)
+Greedy(sel, uncov) ==
+  IF uncov = {} THEN sel
+  ELSE LET Gain(k) == Cardinality(ValsOf(chosen[k]) \cap uncov)
+           best == CHOOSE k \in 1..Len(chosen) : \A j \in 1..Len(chosen) : Gain(k) >= Gain(j)
+       IN Greedy(Append(sel, best), uncov \ ValsOf(chosen[best]))
+Rotation(r) == Greedy(<<r>>, AllVals \ ValsOf(chosen[r]))
+Finished == started /\ uncovered = {} /\ cands = {}
+
+\* every value of every factor occurs in every rotation; every value occurs alone in Singles (or is the default)
+RotationsCover == Finished => \A r \in 1..Len(chosen) :
+                     LET rot == Rotation(r)
+                         have == UNION {ValsOf(chosen[rot[k]]) : k \in 1..Len(rot)}
+                     IN rot[1] = r /\ AllVals \subseteq have
+SinglesCover == Finished => LET ss == Singles IN
+                   \A i \in 1..NF : \A a \in FactorVals(i) :
+                      a = Default[Names[i]] \/ \E v \in ss : v[Names[i]] = a /\ \A j \in 1..NF : j # i => v[Names[j]] = Default[Names[j]]
+DefaultsInDomain == Finished => (Default \in Vectors /\ AllOn \in Vectors)
+
+Dump == Finished => PrintT(<<"OUT", ToJson([vectors |-> chosen, rotations |-> [r \in 1..Len(chosen) |-> Rotation(r)],
+                                             singles |-> Singles, allon |-> AllOn, default |-> Default])>>)
 =============================================================================
